@@ -6,7 +6,7 @@
 From Coq Require Import List Arith Bool.
 Import ListNotations.
 
-(* kind: 1 nil message, 2 event stream gone, 3 response mailbox subscribed, 4 event stream subscribed to itself;
+(* kind: 1 nil message, 2 event stream gone, 3 response mailbox subscribed, 4 event stream subscribed to itself, 5 a dead subscriber on an engine with a remote;
    outcome: 0 ok, 1 panic, 2 diverged (no rest / too many events), 3 the sender blocked *)
 Record case := { c_kind : nat; c_k : nat; c_outcome : nat; c_dead : nat; c_events : nat }.
 
